@@ -160,6 +160,8 @@ def main():
         # resumed at the incumbent: after every solve the threshold is set to the best stored cost and the solutions are cleared
         for objn in ("length", "clearance"):
             pjobs.append("CRUN %s R2 %s %d %s -1 %d %g 3" % (pl_, rng.choice(["empty", "boxes3", "gap"]), rng.randint(0, 1), objn, rng.randint(1, 10 ** 6), 0.15 if quick else 0.4))
+    for ps_ in range(1, 9):       # regression probes of a repaired defect: PRM::constructRoadmap reset bestCost_ after the solution thread had stored the cost of an immediate solution (timing dependent: several tries, run concurrently)
+        pjobs.append("CRUN %s R2 empty 0 length 1.3 %d 0.3 3" % ("PRMstar" if ps_ % 2 else "PRM", ps_))
     pjobs.append("CRUN RRTstar R2 empty 1 work 0 7 0.3 3")      # regression probe of the repaired defect (isSymmetric of the mechanical-work objective)
     pjobs.append("CRUN PRMstar R2 empty 1 work 0 7 0.3 3")      # fixed probe of the known finding C04-prm-undirected-roadmap-direction-dependent-cost
     def run_job(j):
